@@ -143,7 +143,14 @@ func c10Request(c *fw.Case, ts *pdus.Tables, t *pdus.Type) {
 }
 
 func c10Dispatch(c *fw.Case, ts *pdus.Tables, t *pdus.Type) {
-	v, _ := pdus.Gen(t, c.R, -1, 0)
+	force, class := -1, 0
+	if len(t.Fields) > 0 && c.R.Chance(1, 4) {
+		// "every encoded PDU its package can produce" includes the big ones: a forced boundary class (64 KiB bodies,
+		// 65531-octet optional parameters, 255 destinations)
+		force = c.R.Intn(len(t.Fields))
+		class = c.R.Intn(pdus.NumClasses(t, &t.Fields[force]))
+	}
+	v, _ := pdus.Gen(t, c.R, force, class)
 	img := pdus.RefEncode(t, v)
 	if t.Key() == "smgp30.ActiveTestResp/Active_Test_Resp" && c.R.Bool() {
 		img = append(img, 0) // the library's own 13-octet form
@@ -182,6 +189,33 @@ func c10Dispatch(c *fw.Case, ts *pdus.Tables, t *pdus.Type) {
 		c.Failf("decoded-command/"+t.Key(), "PDU decoded from an image with command %#x reports GetCommand()=%#x", t.Cmd, got)
 	}
 	cmdMatchesHeader(c, "dispatcher", p)
+	// two results of the dispatcher alive at the same time (a server holding a request while the next one arrives):
+	// each is a PDU of its own
+	if c.R.Chance(1, 2) {
+		lt := t.Lib()
+		snap := pdus.Extract(lt, p)
+		v2, _ := pdus.Gen(t, c.R, -1, 0)
+		img2 := pdus.RefEncode(t, v2)
+		var p2 sms.PDU
+		var err2 error
+		if pan, val, st := fw.Try(func() { p2, err2 = d(append([]byte(nil), img2...)) }); pan {
+			c.Failf("dispatch-"+fw.PanicSig(val, st)+"/"+t.Key(), "%s image %s: %v\n%s", t.Key(), hx(img2), val, st)
+			return
+		}
+		c.Evals(1)
+		if err2 == nil && p2 != nil {
+			if df := pdus.Diff(lt, snap, pdus.Extract(lt, p)); len(df) > 0 {
+				c.Failf("dispatched-pdu-changed-by-next-dispatch/"+t.Key(), "the PDU Decode%s returned for the first packet changed when the next packet of the same command was decoded: %v", t.Family, df)
+				return
+			}
+			var g1, g2 uint32
+			fw.Try(func() { p.SetSequenceID(100); p2.SetSequenceID(200); g1, g2 = p.GetSequenceID(), p2.GetSequenceID() })
+			if g1 != 100 || g2 != 200 {
+				c.Failf("set-sequence-getter/two-dispatched/"+t.Key(), "two PDUs from Decode%s: SetSequenceID(100) on the first and (200) on the second read back %d and %d", t.Family, g1, g2)
+				return
+			}
+		}
+	}
 	// a response generated from a dispatcher-made request keeps the flavour (all three SMPP binds)
 	if !t.IsResponse() && t.Resp != "" {
 		var r sms.PDU
